@@ -39,6 +39,14 @@ func plan(tier string, seed uint64, bin string) []run {
 			}
 		}
 	}
+	for _, kind := range []string{"bug", "identity"} {
+		depth := 6
+		if !quick {
+			depth = 8
+		}
+		runs = append(runs, run{fmt.Sprintf("remove %s, remote R2 added outside the session", kind),
+			Params{Seed: seed, Kind: kind, Remotes: 1, Others: 1, LateRemote: true, Bin: bin}, depth})
+	}
 	for r := 0; r <= 3; r++ {
 		depth := 4
 		if r == 3 {
@@ -62,6 +70,7 @@ var Assumptions = []string{
 	"whether a repeated removal returns an error is not constrained by the statement: both accepted; it must change nothing and must not panic",
 	"wipe is run on a copy of every state reached in the wipe runs, with and without a bridge configured in the git config; 'identity never selected' is a repository that only ever fetched",
 	"remote URLs use the in-process transport scheme; rm and wipe never contact a remote",
+	"late-remote runs: one session handle stays open (cache-route removals only) while the environment configures a second remote with stock `git remote add`; the removal oracle reads the configured remotes through a handle of its own, never through the session's",
 	"bounded: depths as listed per run; beyond the completed depth nothing is claimed",
 }
 
